@@ -29,6 +29,8 @@ EXPLANATION += ' X86-LOOPSTORE, CTOR-INIT.'
 EXPLANATION += ' X86-LOOPLOAD.'
 CLAIM += (' The load half of the hand-written loop XORs r(8+j) with the j-th quadword at spAddr0, converts the eight 8-byte groups at spAddr1 into f0-f3 / e0-e3 and masks only the e registers (X86-LOOPLOAD).')
 
+EXPLANATION += ' X86-DSITEM.'
+
 
 def run(ctx, R):
     FI = astq.Facts(ctx, 'K0')
@@ -54,3 +56,4 @@ def run(ctx, R):
     genreset.rule_ctor_init(ctx, R, 'x86')
     x86loop.rule_loopstore(ctx, R)
     x86loop.rule_loopload(ctx, R)
+    x86loop.rule_dsitem(ctx, R)
